@@ -44,6 +44,7 @@ fn main() {
         "C18" => c18::run(seed, tier, &mut out),
         "C18F" => c18::run_model(seed, tier, &mut out),
         "C17" => c17::run(seed, tier, &mut out),
+        "C17I" => c17::run_iter_model(seed, tier, &mut out),
         "C04I" => c17::run_finish_modes(seed, tier, &mut out),
         "C13" => c13::run(seed, tier, &mut out),
         "C13R" => c13::run_resize(seed, tier, &mut out),
